@@ -5,6 +5,7 @@ package pgen
 
 import (
 	"fmt"
+	"io"
 	"math"
 	"reflect"
 	"strings"
@@ -122,7 +123,7 @@ type LeafMsg struct{ Data []byte }
 func (m LeafMsg) Size() int { return len(m.Data) }
 func (m LeafMsg) Marshal(b []byte) error {
 	if len(b) < len(m.Data) {
-		return fmt.Errorf("LeafMsg.Marshal: short buffer")
+		return fmt.Errorf("LeafMsg.Marshal: %w", io.ErrShortBuffer)
 	}
 	copy(b, m.Data)
 	return nil
@@ -138,7 +139,7 @@ type LeafCustom struct{ Data []byte }
 func (m LeafCustom) Size() int { return len(m.Data) }
 func (m LeafCustom) MarshalTo(b []byte) (int, error) {
 	if len(b) < len(m.Data) {
-		return 0, fmt.Errorf("LeafCustom.MarshalTo: short buffer")
+		return 0, fmt.Errorf("LeafCustom.MarshalTo: %w", io.ErrShortBuffer)
 	}
 	return copy(b, m.Data), nil
 }
